@@ -570,3 +570,38 @@ def lem_tree_struct_injective(f, a, g, b, n, sel_a, sel_b):
     """two containers' structure trees are equal iff they have the same layout and leaf-wise equal structures"""
     k = fresh_int('k')
     return z3.Implies(f(a, n) == g(b, n), z3.ForAll([k], z3.Implies(z3.And(k >= 0, k < n), sel_a(a[k]) == sel_b(b[k]))))
+
+
+def container_callee_contracts(P):
+    """callee contracts used when a rule builds and reduces a container (each proved by its own scenario):
+    Block*.__init__ (C10: validation), Block*.reduce / AdditionOperator.reduce (C01: same map, same structures)"""
+    KIND = {'BlockRowOperator': 'Row', 'BlockDiagonalOperator': 'Diag', 'BlockColumnOperator': 'Col'}
+
+    def init(shared):
+        def contract(interp, fi, args, kwargs):
+            self_, blocks = args[0], args[1]
+            seq = B.as_seq(interp, blocks)
+            arr = arr_of(interp.run, seq)
+            n = to_z3(seq.length)
+            k = fresh_int('k')
+            if shared is not None:
+                same = z3.ForAll([k], z3.Implies(z3.And(k >= 0, k < n), shared(arr[k]) == shared(arr[0])))
+                if not interp.run.branch(same):
+                    interp.raise_('ValueError', 'blocks must share a structure')
+            self_.fields['blocks'] = blocks
+            return None
+        return contract
+
+    def reduce_(interp, fi, args, kwargs):
+        self_ = args[0]
+        c, w, i_, o_ = den_of(interp, self_)
+        r = fresh_const('reduced_container', Op)
+        interp.run.assume(z3.And(denw(r) == w, denc(r) == c, ins(r) == i_, outs(r) == o_))
+        return r
+    out = {'furax._base.blocks.BlockRowOperator.__init__': init(outs),
+           'furax._base.blocks.BlockColumnOperator.__init__': init(ins),
+           'furax._base.blocks.AbstractBlockOperator.__init__': init(None),
+           'furax._base.blocks.AbstractBlockOperator.reduce': reduce_,
+           'furax._base.blocks.BlockDiagonalOperator.reduce': reduce_,
+           'furax._base.core.AdditionOperator.reduce': reduce_}
+    return out
